@@ -478,8 +478,10 @@ class StorageReplayer:
             real = self.observe(mo, first)
         except Exception as ex:
             import traceback
-            tb = traceback.extract_tb(ex.__traceback__)[-1]
-            return ['query raised %s at %s:%s (%s)' % (type(ex).__name__, os.path.basename(tb.filename), tb.name, str(ex)[:120])]
+            frames = traceback.extract_tb(ex.__traceback__)
+            tb = frames[-1]
+            chain = ' < '.join(f.name for f in frames[::-1][:5])
+            return ['query raised %s at %s:%s (%s) [%s]' % (type(ex).__name__, os.path.basename(tb.filename), tb.name, str(ex)[:120], chain)]
         if self.kind != 'file':
             mo = dict(mo)
             mo.pop('ulog', None)
